@@ -53,7 +53,8 @@ REQUIRED_COUNTERS = ['partitions_analysed', 'rows_compared',
                      'sector_rows_compared', 'merge_results_invocations',
                      'zip_containers', 'gzip_files',
                      'metamorphic_pairs_compared',
-                     'single_qubit_entries_compared']
+                     'single_qubit_entries_compared',
+                     'single_record_dict_files', 'keys_above_255_trials']
 
 CODES = {
     1: {'name': 'Planar2DCode', 'parameters': {'L_x': 3, 'L_y': 3,
@@ -92,9 +93,12 @@ def gen_multiset(rng):
             continue
         seen.add(ident)
         T = int(rng.integers(1, 60))
+        if rng.random() < 0.2:
+            T = int(rng.integers(600, 2500))    # counts beyond 255
         mode = str(rng.choice(['mixed', 'mixed', 'all-success', 'all-fail',
                                'no-codespace', 'x-only']))
-        ee = (rng.random((T, 2 * k)) < 0.25).astype(int)
+        ee = (rng.random((T, 2 * k)) < float(rng.choice([0.25, 0.5, 0.7]))
+              ).astype(int)
         cs = rng.random(T) < 0.8
         if mode == 'all-success':
             ee[:] = 0
@@ -110,6 +114,7 @@ def gen_multiset(rng):
                   'error_rate': rate,
                   'method': {'name': 'direct', 'parameters': {}}}
         keys.append({'inputs': inputs, 'k': k, 'ee': ee.tolist(),
+                     'big': T > 255,
                      'cs': cs.tolist(), 'succ': succ.tolist(),
                      'mode': mode})
     return keys
@@ -195,6 +200,9 @@ def write_partition(rng, keys, files, root, out):
     for fi, chunks in enumerate(files):
         data = [record_of(keys[ki], idx) for ki, idx in chunks]
         kind = str(rng.choice(['json', 'gz', 'zip', 'merge', 'subdir-gz']))
+        if len(data) == 1 and rng.random() < 0.5:
+            data = data[0]          # a single record: top-level dict
+            out.count('single_record_dict_files')
         if kind == 'json':
             p = os.path.join(root, f'r{fi}.json')
             with open(p, 'w') as f:
@@ -353,6 +361,7 @@ def run_block(task, out):
     base = os.environ.get('PV_WORK') or tempfile.gettempdir()
     for j in range(task['n']):
         keys = gen_multiset(rng)
+        out.count('keys_above_255_trials', sum(1 for k in keys if k['big']))
         root = tempfile.mkdtemp(prefix='c15-', dir=base)
         try:
             rows_by_partition = []
